@@ -341,8 +341,45 @@ pub fn to_radix(mut v: u128, radix: u32) -> String {
     s.iter().rev().collect()
 }
 
+/// hand-written family around fix c1c04ca (the sign of an exponent belongs to the number token):
+/// spellings that now are one Number token, and near misses that must stay symbols / two tokens
+pub const SIGNED_EXP_FAMILY: [&str; 24] = [
+    "1e-7", "2.5E+3", ".5e-1", "-1e+2", "1e-", "1e-x", "1ee-7", ".e-1", ".5e-x", "1e-7x", "#x1e-7",
+    "#d1e-7", "#e1e-2", "1.e-2", "1e--7", "1e+-7", "+1e-7", "-.5E-2", "1.2.3e-4", "1/2e-3", "1e-7e-7",
+    "..5e-1", "+e-1", "-e+1",
+];
+
+/// decimal mantissa, exponent marker, sign, digits — with the occasional defect in each part
+pub fn gen_signed_exponent(rng: &mut Rng) -> String {
+    if rng.chance(1, 4) {
+        return rng.pick(&SIGNED_EXP_FAMILY).to_string();
+    }
+    let mut s = String::new();
+    s.push_str(*rng.pick(&["", "", "", "-", "+"]));
+    let a = rng.below(4) as usize;
+    s.push_str(&digits(rng, a, 10));
+    match rng.below(8) {
+        0..=2 => {}
+        7 => s.push_str(*rng.pick(&["..", "/", "a", "e", "-", "_"])),
+        _ => {
+            s.push('.');
+            let b = rng.below(4) as usize;
+            s.push_str(&digits(rng, b, 10));
+        }
+    }
+    s.push(*rng.pick(&['e', 'E', 'e', 'E', 'e', 'd', 'f']));
+    s.push_str(*rng.pick(&["-", "+", "-", "+", "-", "+", "", "--", "+-", "-+"]));
+    let d = *rng.pick(&[0usize, 1, 1, 1, 2, 2, 3]);
+    s.push_str(&digits(rng, d, 10));
+    if rng.chance(1, 6) {
+        s.push_str(*rng.pick(&["x", ".", ".5", "e", "e-1", "-", "+1", "/2", ";", "@", "a", "E+2"]));
+    }
+    s
+}
+
 pub fn gen_number_spelling(rng: &mut Rng, radix: u32) -> String {
-    match rng.below(14) {
+    match rng.below(16) {
+        14 | 15 => gen_signed_exponent(rng),
         0..=4 => gen_integer(rng, radix),
         5 | 6 | 7 => format!("{}/{}", gen_integer(rng, radix), gen_integer(rng, radix).trim_start_matches(['+', '-'])),
         8 => format!("{}/{}", gen_integer(rng, radix), gen_integer(rng, radix)),
@@ -564,7 +601,8 @@ pub fn mutate(rng: &mut Rng, text: &str) -> String {
             }
             1 => {
                 let piece = *rng.pick(&["(", ")", "[", "]", "}", "#(", "\"", ";", ".", " . ", "'", "#", "#\\",
-                                        "\\", "#e", "#x", " ", "\n", "|", "#;", ",@"]);
+                                        "\\", "#e", "#x", " ", "\n", "|", "#;", ",@", "e-", "E+", "e-7", "1e-7", ".5e-1",
+                                        "e", "-", "+"]);
                 let at = rng.below(len as u64 + 1) as usize;
                 for (i, c) in piece.chars().enumerate() {
                     cs.insert(at + i, c);
@@ -614,6 +652,18 @@ pub fn gen_wf_atom(rng: &mut Rng) -> String {
     match rng.below(12) {
         0 | 1 => gen_integer(rng, 10),
         2 => { let d = 1 + rng.below(99999); format!("{}/{}", gen_integer(rng, 10), d) }
+        3 if rng.chance(1, 3) => {
+            // decimal with a signed exponent: one Number token since fix c1c04ca
+            let a = 1 + rng.below(3) as usize;
+            let b = rng.below(3) as usize;
+            let m = match rng.below(3) {
+                0 => digits(rng, a, 10),
+                1 => format!("{}.{}", digits(rng, a, 10), digits(rng, b, 10)),
+                _ => format!(".{}", digits(rng, a, 10)),
+            };
+            format!("{}{}{}{}{}", rng.pick(&["", "-", "+"]), m, rng.pick(&["e", "E"]), rng.pick(&["-", "+"]),
+                    rng.below(40))
+        }
         3 => { let a = 1 + rng.below(3) as usize; let b = 1 + rng.below(4) as usize;
                format!("{}{}.{}", rng.pick(&["", "-"]), digits(rng, a, 10), digits(rng, b, 10)) }
         4 => match rng.below(5) {
